@@ -235,7 +235,7 @@ def get_pedal_type_from_value(value, evaluate_name=None) -> Type:
     if isinstance(value, type(None)):
         return NoneType()
     if isinstance(value, tuple):
-        return TupleType((get_pedal_type_from_value(t, evaluate_name) for t in value))
+        return TupleType(tuple(get_pedal_type_from_value(t, evaluate_name) for t in value))
     if isinstance(value, (list, set, frozenset)):
         container_type = ELEMENT_TYPES.get(type(value), ListType)
         if value:
